@@ -266,7 +266,7 @@ func buildOps() []*Op {
 			return db.Order(clause.OrderBy{Expression: clause.Expr{SQL: c.tpl("{0} = ? DESC"), Vars: []interface{}{v[0].V}}})
 		}})
 	add(&Op{Label: `Order(clause.OrderBy{Expression: Expr{"FIELD({0},?)", [list], WithoutParentheses}})`, Clause: "ORDER",
-		Slots: []SlotSpec{{J: 0, ListCtx: true, Classes: []Class{CSlice3Int, CSlice2, CSlice1, CSlice0, CIface2, CBytes, CNamedBytes, CRawJSON, CStr, CDValuerSlice}}}, Core: true,
+		Slots: []SlotSpec{{J: 0, ListCtx: true, Classes: []Class{CSlice3Int, CSlice2, CSlice1, CSlice0, CIface2, CBytes, CNamedBytes, CRawJSON, CStr, CDValuerSlice, CSliceNamedU8}}}, Core: true,
 		Apply: func(db *gorm.DB, c *Ctx, v []Val) *gorm.DB {
 			return db.Order(clause.OrderBy{Expression: clause.Expr{SQL: c.tpl("FIELD({0},?)"), Vars: []interface{}{v[0].V}, WithoutParentheses: true}})
 		}})
